@@ -160,25 +160,23 @@ R.contract(
 #     an ID that was abandoned earlier is never held (hence never used as destination) again (E_new*, E_seen*);
 #   * at most min(4*limit, MAX_PENDING_RETIRES) retirements are pending (E_cap).
 # CONNECTION_ID_LIMIT_ERROR exactly when one of the two bounds would be exceeded, PROTOCOL_VIOLATION exactly when
-# retire_prior_to > sequence_number, FRAME_ENCODING_ERROR exactly when the ID length is outside 1..20; the first two
-# kinds of refusal leave the ID state untouched.
+# retire_prior_to > sequence_number (ID state untouched) or when the frame leaves no ID to switch to (NO_ID_LEFT below),
+# FRAME_ENCODING_ERROR exactly when the ID length is outside 1..20 (ID state untouched).
 #
-# GENUINE DEFECT (kept visible, see known_findings.json and tools/repro_c18_indexerror.py): `_consume_peer_cid()` is
-# reached with no spare ID when the current ID is below the new retire-prior-to, no spare is at or above it and the
-# frame's own sequence number was already seen (e.g. consumed and retired by change_connection_id()): IndexError
-# escapes the handler (and receive_datagram, which only catches QuicConnectionError).  IndexError is NOT declared in
-# `raises`.  The requirement "there is an ID to switch to" is the separate clause list C18_DEFECT below, checked as a
-# cut as soon as sequence_number and retire_prior_to are parsed: it is REFUTED on the unchanged tree, and the rest of
-# the function is verified under it (assert-then-assume).
-# The clause that the unchanged tree VIOLATES (kept separate so that everything else is still verified under it):
-# once sequence_number and retire_prior_to are known, a frame that forces the current ID to be abandoned leaves at
-# least one ID to switch to - a spare at or above the new retire-prior-to, or the frame's own ID if it is acceptable.
-C18_DEFECT = [
-    "not (retire_prior_to <= sequence_number"
-    " and self._peer_cid.sequence_number < max(self._peer_retire_prior_to, retire_prior_to)"
-    " and forall(lambda k: implies(0 <= k < len(PA(self)), sel(PA(self), k).sequence_number < max(self._peer_retire_prior_to, retire_prior_to)))"
-    " and not (sequence_number >= max(self._peer_retire_prior_to, retire_prior_to) and not SEEN(self, sequence_number)))"
-]
+# HISTORY: on the pinned tree `_consume_peer_cid()` was reached with no spare ID when the current ID is below the new
+# retire-prior-to, no spare is at or above it and the frame's own sequence number was already seen (e.g. consumed and
+# retired by change_connection_id()): IndexError escaped the handler and receive_datagram.  The clause "there is an ID
+# to switch to" was refuted on that tree (tools/repro_c18_indexerror.py), the handler was repaired in /repo (fix: commit
+# recorded in known_findings.json): such a frame is now refused with PROTOCOL_VIOLATION before _consume_peer_cid().
+# NO_ID_LEFT, in terms of the entry state: the frame forces the current ID to be abandoned and leaves no ID to switch to -
+# no spare at or above the new retire-prior-to, and the frame's own ID is not acceptable (below it, or already seen).
+_NEWRPT = "max(old(self._peer_retire_prior_to), retire_prior_to)"
+NO_ID_LEFT = (
+    "(retire_prior_to <= sequence_number"
+    " and old(self._peer_cid.sequence_number) < NEWRPT"
+    " and forall(lambda k: implies(0 <= k < old(len(PA(self))), old(sel(PA(self), k).sequence_number) < NEWRPT))"
+    " and not (sequence_number >= NEWRPT and not old(SEEN(self, sequence_number))))"
+).replace("NEWRPT", _NEWRPT)
 # Witness form of "what happened to every ID that was held" (locals of the function: sequence_number, retire_prior_to,
 # change_cid; _lc0_* / _lc1_* are the index maps of the two filters over the old spare list, engine/pyvc/comp.py;
 # n0 / m0 = old lengths of the retirement queue / spare list; OFF = 1 when the current ID had to be abandoned).
@@ -225,16 +223,14 @@ R.contract(
         "QuicConnectionError": [
             "exc_error_code == QuicErrorCode.FRAME_ENCODING_ERROR or exc_error_code == QuicErrorCode.PROTOCOL_VIOLATION or exc_error_code == QuicErrorCode.CONNECTION_ID_LIMIT_ERROR",
             "implies(exc_error_code == QuicErrorCode.FRAME_ENCODING_ERROR, (len(connection_id) == 0 or len(connection_id) > 20) and peer_same(self))",
-            "implies(exc_error_code == QuicErrorCode.PROTOCOL_VIOLATION, retire_prior_to > sequence_number and peer_same(self))",
+            "implies(exc_error_code == QuicErrorCode.PROTOCOL_VIOLATION, (retire_prior_to > sequence_number and peer_same(self)) or " + NO_ID_LEFT + ")",
             "implies(exc_error_code == QuicErrorCode.CONNECTION_ID_LIMIT_ERROR, 1 + len(PA(self)) > self._local_active_connection_id_limit or len(RQ(self)) > retire_cap(self))",
             # even when the connection is about to be closed the destination ID honours retire-prior-to
             "implies(exc_error_code == QuicErrorCode.CONNECTION_ID_LIMIT_ERROR, pc_floor(self) and pc_distinct(self) and pc_seen(self))",
         ],
     },
     cuts={
-        # DEFECT CLAUSE (refuted on the unchanged tree = the genuine defect; see C18_DEFECT below)
-        "length = buf.pull_uint8()": C18_DEFECT,
-        # follows from the defect clause: there is an ID to switch to
+        # guarded by the handler since the fix: there is an ID to switch to
         "self._consume_peer_cid()": ["len(PA(self)) > 0"],
         # the IDs to retire, element by element, in terms of the entry state (beta-reduces the insert(0, ...) once)
         "for quic_connection_id in retire:": [
@@ -255,6 +251,7 @@ R.contract(
         "len(RQ(self)) <= retire_cap(self)",
         # refusals did not apply
         "0 < len(connection_id) <= 20 and retire_prior_to <= sequence_number",
+        "not " + NO_ID_LEFT,
         "rq_prefix_kept(self)",
         # E_keep (current ID): kept unless it is below retire-prior-to
         "implies(old(self._peer_cid.sequence_number) >= self._peer_retire_prior_to, self._peer_cid == old(self._peer_cid) and self._peer_cid.sequence_number == old(self._peer_cid.sequence_number) and same(self._peer_cid.cid, old(self._peer_cid.cid)))",
